@@ -28,6 +28,24 @@ ASSUMPTIONS = [
     'exception markers in the buffer are instances of Exception (type annotation of connection_lost / '
     'exception_received)',
     'a dict is iterated as a duplicate-free sequence of exactly its keys',
+    'stubs resume_stub / await_stub used inside read, readuntil, feed_recv_buf, _collect_output are the constructive '
+    'forms of the contracts PROVED for _maybe_resume_reading (Spec maybe_resume) and _block_read (Spec block_read); '
+    'chan.resume_reading() may synchronously deliver buffered packets, so it is an environment step',
+    'class invariants assumed after a suspension (accounting, no empty chunk, flow-control invariant J) are proved on '
+    'the writers covered here: data_received, connection_lost, eof_received, exception_received, read, readuntil, '
+    'readline, SSHProcess.feed_recv_buf, SSHClientProcess._collect_output.  NOT covered: connection_made (initial '
+    'state), SSHTunTapStreamSession.read (packet-preserving override), SSHProcess.data_received/eof_received '
+    '(dispatch to redirection writers), pause_feeding/resume_feeding',
+    '_should_pause_reading() is dispatched dynamically; SSHProcess ors in bool(_paused_write_streams), modelled by '
+    'the ghost flag ghost_pws and not verified against process.py',
+    '_unblock_drain (iterates a set of futures) is represented by its effect "drainers of that datatype woken"',
+    'a reader cancelled while suspended loses what it had already taken out of the buffer (CancelledError: no clause)',
+    'regex separators (compiled Pattern + max_separator_len) and lists of separators are delegated to `re`: they are '
+    'exercised natively over all chunkings of all streams of <= 5 (thorough: 6) units (bounded stand-in, not a proof); '
+    'literal separators and the newline sentinel are proved',
+    '"complete output comes with the exit status" (ordering of data, EOF, exit-status and close across channel and '
+    'process; communicate()/wait()) and redirections to OS-level targets are NOT decided here: only the pieces '
+    'listed as functions under contract are',
 ]
 
 KT = 'opt[int]'
